@@ -1,5 +1,6 @@
 //! hv — conformance harness binding the TLA+ specification in /verif/spec to ureq-proto (/repo).
 //! Every subcommand drives the PUBLIC API only and writes one ndjson event per call.
+mod drv_br;
 mod drv_bw;
 mod lex;
 mod util;
@@ -31,17 +32,22 @@ fn main() {
     silence_panics();
     let prop = drv.to_uppercase();
     let mut t = Tracer::new(&o.out, o.shards, &prop, o.only.clone());
+    let mut extra = serde_json::json!({});
     match drv.as_str() {
         "c03" => drv_bw::c03(&o, &mut t),
         "c04" => drv_bw::c04(&o, &mut t),
         "c18" => drv_bw::c18(&o, &mut t),
         "c19" => drv_bw::c19(&o, &mut t),
+        "c07" => extra = drv_br::c07(&o, &mut t),
+        "c08" => extra = drv_br::c08(&o, &mut t),
         _ => {
             eprintln!("unknown driver {}", drv);
             std::process::exit(2);
         }
     }
     let (c, e) = (t.cases, t.events);
-    t.finish(serde_json::json!({"tier": o.tier, "seed": o.seed}));
+    extra["tier"] = serde_json::json!(o.tier);
+    extra["seed"] = serde_json::json!(o.seed);
+    t.finish(extra);
     println!("hv {}: {} cases, {} events", drv, c, e);
 }
